@@ -95,3 +95,38 @@ def normalize_routes(rn: S3, rv: Tuple[int, int, int]) -> bool:
     good = all((rts[i].name, rts[i].version) <= (rts[i + 1].name, rts[i + 1].version) for i in range(2))
     good = good and sorted(map(id, rts)) == sorted(map(id, before))
     return hx.ok(good)
+
+
+# ---------------------------------------------------------------- documentation text as the Api carries it
+from stone.ir import data_types as _dtm
+
+ND = hx.tier(6, 7)
+
+
+def _ref_unwrap(raw):
+    """doc_unwrap's documented contract: leading / trailing whitespace removed, a lone newline becomes a space,
+    N > 1 consecutive newlines become N - 1 newlines (written independently, run by run)"""
+    text = raw.strip()
+    out, k = [], 0
+    while k < len(text):
+        if text[k] != '\n':
+            out.append(text[k])
+            k += 1
+            continue
+        run = 0
+        while k < len(text) and text[k] == '\n':
+            run += 1
+            k += 1
+        out.append(' ' if run == 1 else '\n' * (run - 1))
+    return ''.join(out)
+
+
+@hx.harness(props=['C02'], targets=['stone.ir.data_types:doc_unwrap'],
+            bound='raw doc text <= %d chars over {a, b, space, newline}: the doc the Api carries equals the documented '
+                  'unwrapping (lone newline -> space, N newlines -> N-1)' % ND, budget=(200, 600))
+def doc_unwrap_exact(doc: str) -> bool:
+    """
+    pre: len(doc) <= ND and re.fullmatch('[ab \\n]*', doc) is not None
+    post: _
+    """
+    return hx.ok(_dtm.doc_unwrap(doc) == _ref_unwrap(doc))
